@@ -2,7 +2,7 @@
 # tools/keepseed.sh <prop> <k> <checks...>: confirm the agent's mutant k for <prop> and keep it under seeded/<prop>-<k>/
 prop="$1"; k="$2"; shift 2
 src=${SEED_SRC_PREFIX:-/tmp/seed-}$prop/out
-dst=/verif/seeded/$prop-${SEED_DST_K:-$k}
+dst=/verif/seeded/${SEED_DST_NAME:-$prop-${SEED_DST_K:-$k}}
 mkdir -p "$dst"
 if [ -f "$src/mutant$k.diff" ]; then
   cp "$src/mutant$k.diff" "$dst/patch.diff"
